@@ -61,6 +61,12 @@ def rules(facts):
                 return None
             arm = m["arms"][cs[0][0]]
             body = strip(arm["body"])
+            # an arm that calls a closure literal on the spot (e.g. a macro parameter) is classified by the closure's body
+            while body.get("k") == "Call" and strip(body["f"]).get("k") == "Closure":
+                cb = strip(body["f"]).get("body")
+                if not isinstance(cb, dict):
+                    break
+                body = strip(cb)
             binds = whole_operand_bindings(arm["pat"])
             r = None
             cl = callees(body)
